@@ -209,15 +209,18 @@ def analyze(scen, r, props):
                 starts[e[1]] = starts.get(e[1], 0) + 1
         rec = r.get("scripts", {}).get("restart")
         killed = any(e[0] == "KILL" for e in ev)
+        failing = {x for x, j in jobs.items() if any(c != 0 for c in j["codes"])}
         if rec is not None:
             for x, j in jobs.items():
+                blocked = bool(ancestors(jobs, x) & failing)
                 if all(c == 0 for c in j["codes"]):
                     n = starts.get(f"j{x}", 0)
-                    if n != 1:
+                    if n != (0 if blocked else 1):
                         V("C11", f"body-executed-{n}-times", f"j{x}: body executed {n} times over the killed run and the restarted run "
                           f"(kill at {[e for e in ev if e[0] == 'KILL']})")
             for var, j in rec["jobs"].items():
-                want = "DONE" if all(c == 0 for c in jobs[j["x"]]["codes"]) else "ERROR"
+                blocked = bool(ancestors(jobs, j["x"]) & failing)
+                want = "DONE" if (all(c == 0 for c in jobs[j["x"]]["codes"]) and not blocked) else "ERROR"
                 if j["state"] != want:
                     V("C11", f"restart-final-state:{j['state']}", f"after the restart {var} (j{j['x']}) is {j['state']}, expected {want}")
         for t in r.get("tokens_end", []):
@@ -273,10 +276,17 @@ def analyze_index(scen, r):
                 if v == e[1]:
                     holders[k] = None
     # histories: the scenario lists its runs [{"jobs": [x...], "end": "ok"|"raise"|"kill"}] per script, index snapshots follow each run
+    kill_at = next((i for i, e in enumerate(r["events"]) if e[0] == "KILL"), None)
     for tag, runs in (scen.get("history") or {}).items():
         rec = r.get("scripts", {}).get(tag)
         if rec is None:
             continue
+        if scen.get("only_if_other_killed_first"):
+            # the index is only looked at when the competing process was already dead when this block ended
+            # (otherwise it may legitimately be rewriting the index while we look at it)
+            end = next((i for i, e in enumerate(r["events"]) if e[0] == "xp_exit" and f"p{e[2]}" == tag), None)
+            if kill_at is None or end is None or kill_at > end:
+                continue
         snaps = rec.get("index", [])
         ids = {int(e[1][1:]): e[5] for e in r["events"] if e[0] == "state" and e[5]}
         completed, aborted = set(scen.get("initial_completed", [])), set(scen.get("initial_aborted", []))
